@@ -7,11 +7,13 @@
    panic(err) branch explicit).  Spec: Spec/Order.v.
 
    The consistent domain D ([pair_ok], pairwise; [consistent] for a sequence):
-   both scalars denote a value (ints accepted by parseInt64, floats finite and
-   accepted by ParseFloat), two nulls are spelled alike, the difference of two
-   ints fits in int64, an int that meets a float reads exactly as a binary64,
-   and a number never meets a string.  Each clause is delimited by a
-   [_refuted] witness below. *)
+   both scalars denote a value (ints accepted by parseInt64; floats readable,
+   the yaml spellings .inf / -.inf included, and not NaN) and an int that
+   meets a float is exactly representable in binary64.  Since the fixes in
+   /repo (three-way integer compare, no panic, null = null, numbers before
+   strings) the former clauses "int differences fit in int64", "no hex / octal
+   next to a float", "nulls spelled alike" and "no number next to a string"
+   are gone; the remaining clauses are delimited by [_refuted] witnesses. *)
 From Coq Require Import List NArith ZArith QArith Permutation Sorted String.
 From YQ Require Import Base.Str Spec.Order Model.Sort Proofs.SortProofs.
 Import ListNotations.
@@ -32,6 +34,11 @@ Print Assumptions C15_sort_perm.
 Theorem C15_psort_perm : forall (A : Type) (lt : A -> A -> bool) (l : list A), Permutation l (psort lt l).
 Proof. exact @psort_perm. Qed.
 Print Assumptions C15_psort_perm.
+
+(* the comparator has no panic outcome for any two scalars *)
+Theorem C15_cmp_never_panics : forall a b : scalar, cmp a b <> Panic.
+Proof. exact cmp_no_panic. Qed.
+Print Assumptions C15_cmp_never_panics.
 
 (* ---------------- on the consistent domain: defined, sorted, stable, idempotent, unique ---------------- *)
 Theorem C15_sort_sorted : forall l : list elem, consistent l ->
@@ -111,33 +118,12 @@ Print Assumptions C15_sort_keys_only_order.
 Definition Sx (t : tag) (s : string) : scalar := mk t (str_of_string s).
 Definition E1 (t : tag) (s : string) (i : N) : elem := mke [Sx t s] i.
 
-(* [9223372036854775807, -2, 1] | sort is returned unchanged although 9223372036854775807 > -2 *)
-Theorem C15_int_overflow_refuted : exists a b c : elem,
-  sort_by [a; b; c] = Ok [a; b; c] /\ elem_cmp a b = Gt /\ cmp_sign (Sx TInt "9223372036854775807") (Sx TInt "-2") = Some Lt.
-Proof.
-  exists (E1 TInt "9223372036854775807" 0), (E1 TInt "-2" 1), (E1 TInt "1" 2). vm_compute. repeat split.
-Qed.
-Print Assumptions C15_int_overflow_refuted.
-
-(* a number meets a string: 9 < 10 < "5" < 9 *)
-Theorem C15_num_str_cycle_refuted : exists a b c : scalar,
-  cmp_sign a b = Some Lt /\ cmp_sign b c = Some Lt /\ cmp_sign c a = Some Lt.
-Proof. exists (Sx TInt "9"), (Sx TInt "10"), (Sx TStr "5"). vm_compute. repeat split. Qed.
-Print Assumptions C15_num_str_cycle_refuted.
-
-(* [0x10, 1.5] | sort reaches panic(err) *)
-Theorem C15_hex_float_panic_refuted : exists a b : scalar,
-  cmp a b = Panic /\ sort_by [mke [a] 0; mke [b] 1] = Panic.
-Proof. exists (Sx TInt "0x10"), (Sx TFloat "1.5"). vm_compute. split; reflexivity. Qed.
-Print Assumptions C15_hex_float_panic_refuted.
-
-(* so do the YAML spellings of infinity and NaN, and integers parseInt64 rejects *)
-Theorem C15_special_float_panic_refuted :
-  cmp (Sx TFloat ".inf") (Sx TFloat "1.5") = Panic /\ cmp (Sx TFloat ".nan") (Sx TFloat ".nan") = Panic
-  /\ cmp (Sx TInt "0b11") (Sx TInt "1") = Panic /\ cmp (Sx TInt "-0x10") (Sx TInt "1") = Panic
-  /\ cmp (Sx TInt "18446744073709551615") (Sx TInt "1") = Panic.
+(* an !!int that parseInt64 cannot read (binary, negative hex) is ordered by its TEXT: 0b11 (three) sorts before 1 *)
+Theorem C15_int_unreadable_refuted :
+  cmp_sign (Sx TInt "0b11") (Sx TInt "1") = Some Lt /\ cmp_sign (Sx TInt "-0x10") (Sx TInt "-20") = Some Lt
+  /\ den (Sx TInt "0b11") = None.
 Proof. vm_compute. repeat split. Qed.
-Print Assumptions C15_special_float_panic_refuted.
+Print Assumptions C15_int_unreadable_refuted.
 
 (* NaN is greater than 1.0 and 1.0 is greater than NaN *)
 Theorem C15_nan_refuted : exists a b : scalar, cmp_sign a b = Some Gt /\ cmp_sign b a = Some Gt.
@@ -152,13 +138,6 @@ Proof.
   vm_compute. repeat split.
 Qed.
 Print Assumptions C15_mixed_precision_refuted.
-
-(* two nulls are ordered by their spelling *)
-Theorem C15_null_spelling_refuted : exists a b : scalar,
-  vden a = vden b /\ cmp_sign a b = Some Gt /\
-  sort_by [mke [a] 0; mke [b] 1] = Ok [mke [b] 1; mke [a] 0].
-Proof. exists (Sx TNull "~"), (Sx TNull "null"). vm_compute. repeat split. Qed.
-Print Assumptions C15_null_spelling_refuted.
 
 (* null against a non-null: every operator answers false, so min depends on the input order *)
 Theorem C15_ops_null_refuted : exists a b : scalar,
@@ -185,15 +164,20 @@ Print Assumptions C15_sort_keys_dup_refuted.
 (* three spellings (one of them equal to a float), floats, duplicates  *)
 (* ================================================================== *)
 Example C15_example :
-  let l := [E1 TInt "0x10" 0; E1 TFloat "1.5" 1 ; E1 TBool "true" 2; E1 TNull "null" 3; E1 TInt "16" 4;
-            E1 TFloat "16.0" 5; E1 TInt "-3" 6; E1 TBool "False" 7; E1 TInt "1_000" 8; E1 TFloat "0.1" 9] in
-  let l2 := [E1 TInt "0x10" 0; E1 TInt "9223372036854775807" 1; E1 TInt "0" 2; E1 TStr "x" 3] in
-  consistentb (tl l) = true /\ consistent (tl l)
-  /\ map e_id (match sort_by (tl l) with Ok r => r | _ => [] end) = [3; 7; 2; 6; 9; 1; 4; 5; 8]%N
-  /\ consistentb l = false            (* 0x10 next to a float: outside D, and indeed a panic *)
-  /\ sort_by l = Panic
-  /\ consistentb (firstn 3 l2) = true /\ consistentb l2 = false
-  /\ int_reads_exact (Sx TInt "9007199254740992") = true /\ int_reads_exact (Sx TInt "9007199254740993") = false.
+  let l := [E1 TInt "0x10" 0; E1 TFloat "1.5" 1 ; E1 TBool "true" 2; E1 TNull "~" 3; E1 TInt "16" 4;
+            E1 TFloat "16.0" 5; E1 TInt "-3" 6; E1 TBool "False" 7; E1 TInt "1_000" 8; E1 TFloat "0.1" 9;
+            E1 TNull "null" 10; E1 TStr "5" 11; E1 TFloat "-.inf" 12; E1 TInt "4611686018427387904" 13; E1 TFloat ".INF" 14] in
+  consistentb l = true /\ consistent l
+  /\ map e_id (match sort_by l with Ok r => r | _ => [] end) = [3; 10; 7; 2; 12; 6; 9; 1; 0; 4; 5; 8; 13; 14; 11]%N
+  (* the inputs of the repaired defects now sort by value *)
+  /\ map e_id (match sort_by [E1 TInt "9223372036854775807" 0; E1 TInt "-2" 1; E1 TInt "1" 2] with Ok r => r | _ => [] end) = [1; 2; 0]%N
+  /\ map e_id (match sort_by [E1 TInt "10" 0; E1 TStr "5" 1; E1 TInt "9" 2] with Ok r => r | _ => [] end) = [2; 0; 1]%N
+  /\ cmp_sign (Sx TInt "0x10") (Sx TFloat "1.5") = Some Gt /\ cmp_sign (Sx TFloat ".inf") (Sx TFloat "1.5") = Some Gt
+  /\ cmp_sign (Sx TNull "~") (Sx TNull "null") = Some Eq
+  (* what is still outside D *)
+  /\ consistentb [E1 TInt "9007199254740993" 0; E1 TFloat "1.0" 1] = false
+  /\ consistentb [E1 TFloat ".nan" 0; E1 TFloat "1.0" 1] = false
+  /\ int_exact (Sx TInt "9007199254740992") = true /\ int_exact (Sx TInt "9007199254740993") = false.
 Proof.
   cbv zeta. split; [vm_compute; reflexivity|]. split; [apply consistentb_sound; vm_compute; reflexivity|].
   vm_compute. repeat split.
